@@ -170,9 +170,8 @@ func (m *MessageStore) processMessageLoop(ctx context.Context, tracer *messageMe
 		if device == nil {
 			// unknown device, lets keep moving
 			continue
-		} else if !hasKnownChainKey {
-			// we dont know the chain key yet, add message to the device cache
-			device.queue.Add(message)
+		} else if !hasKnownChainKey && m.parkIfChainKeyUnknown(device, message) {
+			// we dont know the chain key yet, the message has been added to the device cache
 			_ = m.emitters.groupCacheMessage.Emit(*message)
 			continue
 		}
@@ -224,6 +223,23 @@ func (m *MessageStore) getOrCreateDeviceCache(ctx context.Context, message *mess
 	}
 
 	return device, device.hasKnownChainKey
+}
+
+// parkIfChainKeyUnknown adds the message to the device cache unless the chain
+// key of the device has been registered in the meantime. The check and the add
+// are done under the lock taken by ProcessMessageQueueForDevicePK, so that a
+// message cannot be parked right after the device queue has been flushed.
+func (m *MessageStore) parkIfChainKeyUnknown(device *groupCache, message *messageItem) (parked bool) {
+	m.muDeviceCaches.Lock()
+	defer m.muDeviceCaches.Unlock()
+
+	if device.hasKnownChainKey {
+		return false
+	}
+
+	device.queue.Add(message)
+
+	return true
 }
 
 // process the whole device queue (if any) into to the message queue
